@@ -116,6 +116,11 @@ def is_word(cp) -> bool:
 
 
 WORD = CharSet([("cat", C.CATEGORY_WORD)])
+AWORD = CharSet([("acat", C.CATEGORY_WORD)])
+
+
+def is_aword(cp) -> bool:
+    return cp is not None and cp != EOF and cp < 128 and (chr(cp).isalnum() or chr(cp) == "_")
 
 
 # ------------------------------------------------------------------ NFA
@@ -209,8 +214,10 @@ def _build(nfa: NFA, items, nxt: int, pattern: str, ascii_=False) -> int:
         elif op is C.AT:
             s = nfa.new()
             if ascii_ and av in (C.AT_BOUNDARY, C.AT_NON_BOUNDARY):
-                raise AnalysisError(f"\\b inside an (?a:...) group is not supported ({pattern!r})")
-            if av is C.AT_BOUNDARY:
+                # the ASCII word boundary: é, ٣ and the like do not count as word characters
+                nfa.sets.append(AWORD)
+                nfa.asr[s] = ("ab" if av is C.AT_BOUNDARY else "aB", cur)
+            elif av is C.AT_BOUNDARY:
                 nfa.asr[s] = ("b", cur)
             elif av is C.AT_NON_BOUNDARY:
                 nfa.asr[s] = ("B", cur)
@@ -359,6 +366,10 @@ class Matcher:
             return is_word(prev) != is_word(nxt)
         if kind == "B":
             return is_word(prev) == is_word(nxt)
+        if kind == "ab":
+            return is_aword(prev) != is_aword(nxt)
+        if kind == "aB":
+            return is_aword(prev) == is_aword(nxt)
         tag, cs, neg = kind
         c = nxt if tag == "la" else prev
         inside = c is not None and c != EOF and self.alpha.contains(cs, c)
